@@ -15,6 +15,7 @@ from __future__ import annotations
 import datetime
 import hashlib
 import itertools
+import json
 import os
 import struct
 from pathlib import Path
@@ -47,9 +48,26 @@ class K:
         self._forms = {}
         self._certs = {}
 
-    # ---- description used in replay files (public numbers only)
+    # ---- description used in replay files: public numbers + the (test-only) private part, so that a replay can rebuild the key
     def desc(self):
-        return {"kind": self.kind, "bits": self.bits, "a": str(self.a), "b": str(self.b)}
+        d = {"kind": self.kind, "bits": self.bits, "a": str(self.a), "b": str(self.b)}
+        pn = self.priv.private_numbers()
+        if self.kind == "rsa":
+            d.update(p=str(pn.p), q=str(pn.q))
+        else:
+            d.update(d=str(pn.private_value))
+        return d
+
+    @staticmethod
+    def from_desc(d):
+        from cryptography.hazmat.primitives.asymmetric import ec, rsa
+        if d["kind"] == "rsa":
+            p, q, e, n = int(d["p"]), int(d["q"]), int(d["b"]), int(d["a"])
+            dd = pow(e, -1, (p - 1) * (q - 1))
+            nums = rsa.RSAPrivateNumbers(p, q, dd, rsa.rsa_crt_dmp1(dd, p), rsa.rsa_crt_dmq1(dd, q), rsa.rsa_crt_iqmp(p, q), rsa.RSAPublicNumbers(e, n))
+            return K(nums.private_key())
+        curve = {256: ec.SECP256R1(), 384: ec.SECP384R1(), 521: ec.SECP521R1()}[int(d["bits"])]
+        return K(ec.derive_private_key(int(d["d"]), curve))
 
     def tok(self, ca=False):
         return (f"r:{self.a}:{self.b}:{int(ca)}" if self.kind == "rsa" else f"e:{self.bits}:{self.a}:{self.b}:{int(ca)}")
@@ -307,13 +325,24 @@ def hx(b):
     return "ok:" + (bytes(b).hex() if len(b) else "-")
 
 
+def sdump(fn, obj):
+    r = pyres(fn, obj)
+    return r[1] if r[0] == "ok" else "dump-failed:" + r[0]
+
+
+def safe(fn, default="<raised>"):
+    """value of a cheap attribute / method of a real object; exceptions become a sentinel (never escape the harness)"""
+    r = pyres(fn)
+    return r[1] if r[0] == "ok" else default
+
+
 def norm_ok(s):
     """driver prints empty byte strings as '-', canon() as ''"""
     return "ok:-" if s == "ok:" else s
 
 
 # ------------------------------------------------------------------------------------------------ run
-def run(ck):
+def run(ck, replay_sets=None):
     import logging
     logging.disable(logging.CRITICAL)
     from spsdk.utils.database import DatabaseManager, get_db, get_families
@@ -363,7 +392,7 @@ def run(ck):
 
     # ---------------------------------------------------------------- key pool
     from cryptography.hazmat.primitives.asymmetric import rsa as crsa
-    pool = {("rsa", 2048): [K(crsa.generate_private_key(65537, 2048)) for _ in range(ck.budget(5, 8))],
+    pool = {("rsa", 2048): [K(crsa.generate_private_key(65537, 2048)) for _ in range(ck.budget(5, 10))],
             ("rsa", 4096): [load_priv(p) for p in RSA4096_FILES if p.exists()],
             ("rsa", 3072): [load_priv(p) for p in RSA3072_FILES if p.exists()]}
     if not ck.quick:
@@ -376,6 +405,14 @@ def run(ck):
     pool[("ecc_lz2", 521)] = [ecc_key(rng, 521, True, True) for _ in range(ck.budget(3, 10))]
     ck.extra["key_pool"] = {f"{a}{b}": len(v) for (a, b), v in pool.items()}
 
+    if replay_sets:
+        # a replay file: first the key sets of its cases (rebuilt from the recorded numbers), through every path
+        sets = []
+        for ds in replay_sets:
+            ks = pyres(lambda: tuple(K.from_desc(d) for d in ds))
+            if ks[0] == "ok" and ks[1]:
+                sets.append(ks[1])
+        stream_paths(ck, ask, pool, scratch, by_type, only_sets=sets, name="replayed_key_sets")
     s_lz = stream_keyhash(ck, ask, pool, scratch)
     stream_paths(ck, ask, pool, scratch, by_type)
     stream_negative(ck, ask, pool, scratch, by_type)
@@ -408,7 +445,7 @@ def stream_keyhash(ck, ask, pool, scratch):
                 inp = kdesc([k], [f])
                 s.note((k.id, f), cls=f"{k.kind}{k.bits}{'-lz' if lz else ''}")
                 res = pyres(RKHT.convert_key, v, pw)
-                ok = res[0] == "ok" and ((res[1].n, res[1].e) if k.kind == "rsa" else (res[1].x, res[1].y)) == (k.a, k.b)
+                ok = res[0] == "ok" and safe(lambda: (res[1].n, res[1].e) if k.kind == "rsa" else (res[1].x, res[1].y)) == (k.a, k.b)
                 s.expect(ok, inp, "a supply form does not yield the key's public numbers", res[0] if res[0] != "ok" else "other numbers")
                 if not ok:
                     continue
@@ -470,7 +507,7 @@ def real_dat(keys, used, scratch, family):
     return DebugCredentialCertificate.create_from_yaml_config(cfg).calculate_hash()
 
 
-def stream_paths(ck, ask, pool, scratch, by_type):
+def stream_paths(ck, ask, pool, scratch, by_type, only_sets=None, name="rot_paths"):
     from spsdk.crypto.keys import PublicKey
     from spsdk.dat.debug_credential import RotMetaEcc, RotMetaRSA
     from spsdk.image.ahab.ahab_srk import SRKRecord, SRKRecordV2, SRKTable, SRKTableV2
@@ -482,7 +519,7 @@ def stream_paths(ck, ask, pool, scratch, by_type):
     from spsdk.utils.crypto.rot import Rot
     from spsdk.utils.database import DatabaseManager, get_families
     rng = ck.rng
-    s = ck.stream("rot_paths", "key sets of 1..4 keys (RSA-2048/3072/4096, P-256/384/521; all orders for <= 3 keys, sampled orders for 4; every used "
+    s = ck.stream(name, "key sets of 1..4 keys (RSA-2048/3072/4096, P-256/384/521; all orders for <= 3 keys, sampled orders for 4; every used "
                   "index; each key in a random supply form) through every tool path: RKHTv1/v21.from_keys, CertBlockV1 (single certificate and chain), "
                   "CertBlockV21 (+ binary export->parse), Rot.calculate_hash for families of every rot_type, CMPA.export(keys=) ROTKH register, "
                   "DebugCredentialCertificate.calculate_hash / RotMeta*, AHAB SRKTable / SRKTableV2, HAB SrkTable.  Each output is compared with the "
@@ -517,7 +554,7 @@ def stream_paths(ck, ask, pool, scratch, by_type):
         out = []
         for (kind, bits) in (("rsa", 2048), ("rsa", 4096), ("rsa", 3072), ("ecc", 256), ("ecc", 384), ("ecc", 521)):
             ks = pool.get((kind, bits), [])
-            for _ in range(ck.budget(1, 4)):
+            for _ in range(ck.budget(1, 10)):
                 for n in (1, 2, 3, 4):
                     if len(ks) < n:
                         continue
@@ -535,8 +572,8 @@ def stream_paths(ck, ask, pool, scratch, by_type):
         out += list(itertools.permutations(mixed))
         return out
 
-    sets = key_sets()
-    ck.extra["key_sets"] = len(sets)
+    sets = only_sets if only_sets is not None else key_sets()
+    ck.extra["key_sets" if only_sets is None else "replayed_key_sets"] = len(sets)
     for keys in sets:
         keys = list(keys)
         n = len(keys)
@@ -564,14 +601,15 @@ def stream_paths(ck, ask, pool, scratch, by_type):
                 r1 = cres(lambda: cb.rkth)
                 check(inp_u, "CertBlockV1.rkth" + ("(chain)" if chain else ""), r1, "cert_block_1", keys, no_ca, f"path cb1 {toks} {used}")
                 s.expect(r1 == r, inp_u, "CertBlockV1.rkth differs from RKHTv1.from_keys (depends on the used index / chain?)", r1, r)
-                s.expect(cb.rkh_index == used, inp_u, "rkh_index does not point at the used root certificate", cb.rkh_index, used)
+                s.expect(safe(lambda: cb.rkh_index) == used, inp_u, "rkh_index does not point at the used root certificate", safe(lambda: cb.rkh_index), used)
                 fz = pyres(lambda: cb.rkth_fuses)
                 expf = [int.from_bytes(spec_py("cert_block_1", keys)[i:i + 4], "little") for i in range(0, 32, 4)]
                 s.expect(fz == ("ok", expf), inp_u, "rkth_fuses are not the little-endian words of the RKTH", fz)
                 ask(f"fuses {spec_py('cert_block_1', keys).hex()}",
                     lambda a, fz=fz, inp_u=inp_u: s.compare(inp_u, "ok:" + ",".join(map(str, fz[1])) if fz[0] == "ok" else fz[0], a, "model rkthFuses differs"))
                 # export -> parse -> export identity, rkth preserved, image_length preserved
-                cb.image_length = rng.choice([1, 0x1234, 0xFFFFFFFF, rng.getrandbits(32) or 1])
+                il = rng.choice([1, 0x1234, 0xFFFFFFFF, rng.getrandbits(32) or 1])
+                pyres(setattr, cb, "image_length", il)
                 ex = pyres(cb.export)
                 if ex[0] != "ok":
                     s.expect(False, inp_u, "CertBlockV1.export fails for a valid block", ex)
@@ -581,13 +619,13 @@ def stream_paths(ck, ask, pool, scratch, by_type):
                 s.expect(okp, inp_u, "CertBlockV1.parse(export()) fails", pr)
                 if okp:
                     p = pr[1]
-                    s.expect(p.image_length == cb.image_length, dict(inp_u, image_length=cb.image_length),
-                             "CertBlockV1.parse does not restore image_length", p.image_length, cb.image_length)
+                    s.expect(safe(lambda: p.image_length) == il, dict(inp_u, image_length=il),
+                             "CertBlockV1.parse does not restore image_length", safe(lambda: p.image_length), il)
                     s.expect(cres(lambda: p.rkth) == r1, inp_u, "RKTH changes over export -> parse", cres(lambda: p.rkth), r1)
                     e2 = pyres(p.export)
-                    s.expect(e2 == ex, dict(inp_u, image_length=cb.image_length), "CertBlockV1: export(parse(export(x))) differs from export(x)",
+                    s.expect(e2 == ex, dict(inp_u, image_length=il), "CertBlockV1: export(parse(export(x))) differs from export(x)",
                              e2[1].hex()[:80] if e2[0] == "ok" else e2, ex[1].hex()[:80])
-                    s.expect(p.rkh_index == used and len(p.certificates) == len(cb.certificates), inp_u, "parsed block lost the certificate chain / used index")
+                    s.expect(safe(lambda: (p.rkh_index, len(p.certificates))) == (used, len(cb.certificates)), inp_u, "parsed block lost the certificate chain / used index")
             # Rot dispatch, one family per rot type able to take RSA
             fam, rev = rng.choice(by_type["cert_block_1"])
             rr = cres(lambda: Rot(fam, rev, vals).calculate_hash())
@@ -647,10 +685,8 @@ def stream_paths(ck, ask, pool, scratch, by_type):
                         e2 = pyres(p.export)
                         s.expect(e2 == ex, inp_u, "CertBlockV21: export(parse(export(x))) differs from export(x)",
                                  e2[1].hex()[:80] if e2[0] == "ok" else e2, ex[1].hex()[:80])
-                        rk = p.root_key_record
-                        s.expect((bool(rk.ca_flag), rk.used_root_cert, rk.number_of_certificates) == (ca, used, n), inp_u,
-                                 "root key record flags (CA, used index, count) not recovered by parse",
-                                 (bool(rk.ca_flag), rk.used_root_cert, rk.number_of_certificates), (ca, used, n))
+                        got = safe(lambda: (bool(p.root_key_record.ca_flag), p.root_key_record.used_root_cert, p.root_key_record.number_of_certificates))
+                        s.expect(got == (ca, used, n), inp_u, "root key record flags (CA, used index, count) not recovered by parse", got, (ca, used, n))
                 fam, rev = rng.choice(by_type["cert_block_21"])
                 rr = cres(lambda: Rot(fam, rev, vals).calculate_hash())
                 check(dict(inp, family=fam, revision=rev), "Rot(cert_block_21)", rr, "cert_block_21", keys, no_ca, f"path rot cert_block_21 {toks}")
@@ -773,7 +809,7 @@ def stream_negative(ck, ask, pool, scratch, by_type):
                   "model; non-trivial = distinct (key set, path)")
     r2, r4, e2, e3, e5 = (pool[("rsa", 2048)], pool[("rsa", 4096)] or pool[("rsa", 2048)], pool[("ecc", 256)], pool[("ecc", 384)], pool[("ecc", 521)])
     cases = []
-    for _ in range(ck.budget(6, 30)):
+    for _ in range(ck.budget(6, 60)):
         cases += [
             [rng.choice(r2), rng.choice(e2)], [rng.choice(e2), rng.choice(r2)], [rng.choice(e2), rng.choice(e3)],
             [rng.choice(e3), rng.choice(e2), rng.choice(e3)], [rng.choice(e5)], [rng.choice(e5), rng.choice(e5)],
@@ -829,18 +865,23 @@ def stream_codec(ck, ask, pool, scratch):
         return (f"{p.header.version.split('.')[0]} {p.header.version.split('.')[1]} {p.header.flags} {p.header.build_number} {p.header.image_length} "
                 f"{p.alignment} {','.join(c.export().hex() for c in p.certificates) or '-'} {','.join(h.hex() for h in p.rkh) or '-'}")
 
-    for _ in range(ck.budget(25, 150)):
+    for _ in range(ck.budget(25, 400)):
         n = rng.choice([1, 2, 3, 4])
         keys = rng.sample(r2, min(n, len(r2)))
         used = rng.randrange(len(keys))
-        cb = real_cb1(keys, used, scratch, chain=rng.random() < 0.3)
+        cbr = pyres(real_cb1, keys, used, scratch, rng.random() < 0.3)
+        if cbr[0] != "ok":
+            s.note(("cb1", tuple(k.id for k in keys), used), cls="v1-build-failed")
+            s.expect(False, kdesc(keys, used=used), "CertBlockV1 cannot be built from valid certificates", cbr)
+            continue
+        cb = cbr[1]
         cb._header.flags = rng.choice([0, 1, rng.getrandbits(32)])
         cb._header.build_number = rng.choice([0, 3, rng.getrandbits(32)])
         cb._header.version = rng.choice(["1.0", "1.1", "2.7", "65535.65535"])
         il = rng.choice([0, 1, 0x2000, 0xFFFFFFFF])
         if il:
-            cb.image_length = il
-        cb.alignment = rng.choice([16, 16, 4, 1, 64, 13])
+            pyres(setattr, cb, "image_length", il)
+        pyres(setattr, cb, "alignment", rng.choice([16, 16, 4, 1, 64, 13]))
         ex = pyres(cb.export)
         s.note(("cb1", tuple(k.id for k in keys), used, cb.header.version, cb.alignment), cls="v1-export")
         if ex[0] != "ok":
@@ -859,16 +900,28 @@ def stream_codec(ck, ask, pool, scratch):
                 ("trail", data + bytes(rng.randrange(1, 40)))]
         for name, d in muts:
             pr = pyres(CertBlockV1.parse, d)
-            real = ("ok:" + dump1(pr[1])) if pr[0] == "ok" else pr[0]
+            real = ("ok:" + sdump(dump1, pr[1])) if pr[0] == "ok" else pr[0]
             s.note(("cb1p", tuple(k.id for k in keys), name, len(d)), cls="v1-parse-" + name)
             ask(f"cb1_parse {hexs(d)}", lambda a, real=real, name=name, d=d: s.compare({"mutation": name, "data": d}, real, a, "CertBlockV1.parse differs from the model"))
             if name in ("intact", "trail") and cb.alignment == 16:
-                s.expect(pr[0] == "ok" and pr[1].export() == data, {"mutation": name, "data": d}, "CertBlockV1 does not survive export -> parse -> export")
+                s.expect(pr[0] == "ok" and pyres(pr[1].export) == ("ok", data), {"mutation": name, "data": d}, "CertBlockV1 does not survive export -> parse -> export")
     ask.flush()
 
     # ---- v2.1
     def dump_rkr(rk):
-        return f"{rk.flags} {','.join(h.hex() for h in rk._rkht.rkh_list) or '-'} {hexs(rk.root_public_key)}"
+        """flags, key hashes and root public key of a RootKeyRecord - taken from its EXPORTED bytes (plus `rkth` for the single-key
+        case, where the table is not stored), not from private attributes"""
+        rec = rk.export()
+        flags = struct.unpack_from("<I", rec, 0)[0]
+        cnt, hl = (flags >> 4) & 0xF, {1: 32, 2: 48}.get(flags & 0xF, 32)
+        if cnt > 1:
+            cnt = min(cnt, (len(rec) - 4) // hl)      # a parsed (possibly inconsistent) record keeps only the hashes that were there
+            hashes = [rec[4 + i * hl: 4 + (i + 1) * hl] for i in range(cnt)]
+            pk = rec[4 + cnt * hl:]
+        else:
+            pk = rec[4:]
+            hashes = [hashlib.new("sha256" if hl == 32 else "sha384", pk).digest()]
+        return f"{flags} {','.join(h.hex() for h in hashes) or '-'} {hexs(pk)}"
 
     def dump_isk(i):
         return f"{'true' if i.offset_present else 'false'} {i.constraints} {i.flags} {hexs(i.isk_public_key_data)} {hexs(i.user_data)} {hexs(i.signature)}"
@@ -877,7 +930,7 @@ def stream_codec(ck, ask, pool, scratch):
         mj, mn = p.header.format_version.split(".")
         return f"{mj} {mn} | {dump_rkr(p.root_key_record)} | " + (dump_isk(p.isk_certificate) if p.isk_certificate else "none")
 
-    for _ in range(ck.budget(40, 250)):
+    for _ in range(ck.budget(40, 700)):
         bits = rng.choice([256, 384])
         n = rng.choice([1, 2, 3, 4])
         src = pool[("ecc", bits)] + pool[("ecc_lz", bits)][:6]
@@ -900,15 +953,16 @@ def stream_codec(ck, ask, pool, scratch):
             continue
         data = ex[1]
         rk = cb.root_key_record
-        ask(f"rkr_calc {int(ca)} {used} {ktoks(keys)}", lambda a, rk=rk, inp=inp: s.compare(inp, "ok:" + dump_rkr(rk), a, "RootKeyRecord.calculate differs from the model"))
-        ask(f"rkr_fields {rk.flags}", lambda a, ca=ca, used=used, n=n, bits=bits, inp=inp: s.compare(inp, f"ok:{'true' if ca else 'false'} {used} {n} {1 if bits == 256 else 2}", a, "root key record flag fields differ"))
+        drk = sdump(dump_rkr, rk)
+        ask(f"rkr_calc {int(ca)} {used} {ktoks(keys)}", lambda a, drk=drk, inp=inp: s.compare(inp, "ok:" + drk, a, "RootKeyRecord.calculate differs from the model"))
+        ask(f"rkr_fields {drk.split()[0]}", lambda a, ca=ca, used=used, n=n, bits=bits, inp=inp: s.compare(inp, f"ok:{'true' if ca else 'false'} {used} {n} {1 if bits == 256 else 2}", a, "root key record flag fields differ"))
         isk_toks = "none" if cb.isk_certificate is None else "1 " + dump_isk(cb.isk_certificate).split(" ", 1)[1]
         mj, mn = cb.header.format_version.split(".")
-        ask(f"cb21_export {mj} {mn} {rk.flags} {','.join(h.hex() for h in rk._rkht.rkh_list)} {hexs(rk.root_public_key)} {isk_toks}",
+        ask(f"cb21_export {mj} {mn} {drk} {isk_toks}",
             lambda a, data=data, inp=inp: s.compare(inp, hx(data), a, "CertBlockV21.export differs from the model"))
-        size = struct.unpack_from("<I", data, 8)[0]
+        size = struct.unpack_from("<I", data, 8)[0] if len(data) >= 12 else -1
         s.expect(size == len(data), inp, "cert_block_size field is not the length of the exported block", size, len(data))
-        rkl = len(rk.export())
+        rkl = safe(lambda: len(rk.export()), 4)
         muts = [("intact", data), ("trail", data + bytes(rng.randrange(1, 9))), ("trunc", data[:rng.randrange(0, len(data))]),
                 ("magic", b"cHdr" + data[4:]), ("flags-nibble", data[:12] + bytes([(data[12] & 0xF0) | rng.choice([0, 3, 7])]) + data[13:]),
                 ("count", data[:12] + bytes([(data[12] & 0x0F) | (rng.choice([0, 5, 15]) << 4)]) + data[13:])]
@@ -917,11 +971,11 @@ def stream_codec(ck, ask, pool, scratch):
             muts.append(("isk-nibble", data[:o + 8] + bytes([(data[o + 8] & 0xF0) | rng.choice([0, 3, 9])]) + data[o + 9:]))
         for name, d in muts:
             pr = pyres(CertBlockV21.parse, d)
-            real = ("ok:" + dump21(pr[1])) if pr[0] == "ok" else pr[0]
+            real = ("ok:" + sdump(dump21, pr[1])) if pr[0] == "ok" else pr[0]
             s.note(("cb21p", tuple(k.id for k in keys), used, name, len(d)), cls="v21-parse-" + name)
             ask(f"cb21_parse {hexs(d)}", lambda a, real=real, name=name, d=d: s.compare({"mutation": name, "data": d}, real, _point_ok(a, real), "CertBlockV21.parse differs from the model"))
             if name in ("intact", "trail"):
-                s.expect(pr[0] == "ok" and pr[1].export() == data, {"mutation": name, "data": d}, "CertBlockV21 does not survive export -> parse -> export")
+                s.expect(pr[0] == "ok" and pyres(pr[1].export) == ("ok", data), {"mutation": name, "data": d}, "CertBlockV21 does not survive export -> parse -> export")
             else:
                 s.expect(pr[0] != "ok" or name in ("trunc", "count", "flags-nibble", "isk-nibble"), {"mutation": name, "data": d}, "a block with a wrong magic is accepted")
         if len(ask.lines) > 300:
@@ -948,7 +1002,7 @@ def stream_isk(ck, ask, pool, scratch):
     align = get_db(fam).get_int(DatabaseManager.CERT_BLOCK, "isk_data_alignment")
     hash_of = {256: hashes.SHA256(), 384: hashes.SHA384()}
     lengths = list(range(0, limit + 1, align))
-    reps = ck.budget(1, 4)
+    reps = ck.budget(1, 10)
     for _ in range(reps):
         for rbits in (256, 384):
             for ibits in (256, 384):
@@ -971,38 +1025,41 @@ def stream_isk(ck, ask, pool, scratch):
                     if ex[0] != "ok":
                         s.expect(False, inp, "CertBlockV21.export fails", ex)
                         continue
-                    data = ex[1]
-                    rec = cb.root_key_record.export()
-                    o = 12 + len(rec)
-                    sig_off = struct.unpack_from("<I", data, o)[0]
-                    cs = CURVES[rbits][1]
-                    icl = CURVES[ibits][1]
-                    s.expect(sig_off == 12 + 2 * icl + ln, inp, "signature_offset is not 12 + |ISK public key| + |user data|", sig_off, 12 + 2 * icl + ln)
-                    signed = data[12:o + sig_off]
-                    expect_signed = rec + struct.pack("<3L", sig_off, cons, (0x80000000 if ln else 0) | (1 if ibits == 256 else 2)) + isk.raw_nxp() + (ud or b"")
-                    s.expect(signed == expect_signed, inp, "the exported bytes before the signature are not record || header || ISK key || user data", signed.hex()[:120], expect_signed.hex()[:120])
-                    sig = data[o + sig_off:]
-                    s.expect(len(sig) == 2 * cs and len(data) == o + sig_off + 2 * cs, inp, "signature length is not twice the root coordinate size", len(sig))
-                    der = encode_dss_signature(int.from_bytes(sig[:cs], "big"), int.from_bytes(sig[cs:], "big"))
-                    for i, k in enumerate(keys):
-                        try:
-                            k.pub.verify(der, signed, ec.ECDSA(hash_of[rbits]))
-                            good = True
-                        except InvalidSignature:
-                            good = False
-                        s.expect(good == (i == used), dict(inp, verifier=i), "ISK signature does not verify under exactly the selected root key over the stated range", good, i == used)
-                    # a one-byte change anywhere in the range invalidates it (checked independently)
-                    pos = rng.randrange(len(signed))
-                    tam = signed[:pos] + bytes([signed[pos] ^ 0x01]) + signed[pos + 1:]
                     try:
-                        keys[used].pub.verify(der, tam, ec.ECDSA(hash_of[rbits]))
-                        s.expect(False, dict(inp, tampered_at=pos), "signature still verifies after changing a byte of the signed range")
-                    except InvalidSignature:
-                        pass
-                    i_ = cb.isk_certificate
-                    ask(f"isk_tbs {hexs(rec)} 1 {cons} {i_.flags} {hexs(i_.isk_public_key_data)} {hexs(i_.user_data)} {hexs(i_.signature)}",
-                        lambda a, signed=signed, inp=inp: s.compare(inp, hx(signed), a, "model iskDataToSign differs from the signed slice of the real block"))
-                    ask(f"isk_flags {hexs(ud or b'')} {2 * icl}", lambda a, i_=i_, inp=inp: s.compare(inp, f"ok:{i_.flags}", a, "model ISK flags differ"))
+                        data = ex[1]
+                        rec = cb.root_key_record.export()
+                        o = 12 + len(rec)
+                        sig_off = struct.unpack_from("<I", data, o)[0]
+                        cs = CURVES[rbits][1]
+                        icl = CURVES[ibits][1]
+                        s.expect(sig_off == 12 + 2 * icl + ln, inp, "signature_offset is not 12 + |ISK public key| + |user data|", sig_off, 12 + 2 * icl + ln)
+                        signed = data[12:o + sig_off]
+                        expect_signed = rec + struct.pack("<3L", sig_off, cons, (0x80000000 if ln else 0) | (1 if ibits == 256 else 2)) + isk.raw_nxp() + (ud or b"")
+                        s.expect(signed == expect_signed, inp, "the exported bytes before the signature are not record || header || ISK key || user data", signed.hex()[:120], expect_signed.hex()[:120])
+                        sig = data[o + sig_off:]
+                        s.expect(len(sig) == 2 * cs and len(data) == o + sig_off + 2 * cs, inp, "signature length is not twice the root coordinate size", len(sig))
+                        der = encode_dss_signature(int.from_bytes(sig[:cs], "big"), int.from_bytes(sig[cs:], "big"))
+                        for i, k in enumerate(keys):
+                            try:
+                                k.pub.verify(der, signed, ec.ECDSA(hash_of[rbits]))
+                                good = True
+                            except InvalidSignature:
+                                good = False
+                            s.expect(good == (i == used), dict(inp, verifier=i), "ISK signature does not verify under exactly the selected root key over the stated range", good, i == used)
+                        # a one-byte change anywhere in the range invalidates it (checked independently)
+                        pos = rng.randrange(len(signed))
+                        tam = signed[:pos] + bytes([signed[pos] ^ 0x01]) + signed[pos + 1:]
+                        try:
+                            keys[used].pub.verify(der, tam, ec.ECDSA(hash_of[rbits]))
+                            s.expect(False, dict(inp, tampered_at=pos), "signature still verifies after changing a byte of the signed range")
+                        except InvalidSignature:
+                            pass
+                        i_ = cb.isk_certificate
+                        ask(f"isk_tbs {hexs(rec)} 1 {cons} {i_.flags} {hexs(i_.isk_public_key_data)} {hexs(i_.user_data)} {hexs(i_.signature)}",
+                            lambda a, signed=signed, inp=inp: s.compare(inp, hx(signed), a, "model iskDataToSign differs from the signed slice of the real block"))
+                        ask(f"isk_flags {hexs(ud or b'')} {2 * icl}", lambda a, i_=i_, inp=inp: s.compare(inp, f"ok:{i_.flags}", a, "model ISK flags differ"))
+                    except Exception as exc:  # noqa: BLE001  (a malformed block must become a reported failure, not a harness crash)
+                        s.expect(False, inp, "the exported block cannot be taken apart as header | record | ISK certificate", type(exc).__name__)
         if len(ask.lines) > 300:
             ask.flush()
     # refused lengths with a family
@@ -1055,6 +1112,15 @@ def stream_cli(ck, pool, scratch, by_type):
 
 
 def replay(ck, data):
-    """Replays re-run the whole check (cases carry the public numbers of the keys for inspection; the failing classes are
-    reached deterministically by the generators for the same VERIF_SEED)."""
-    run(ck)
+    """The key sets recorded in the replay file are rebuilt (the cases carry the full test keys) and pushed through every tool path
+    first; then the whole check runs (the codec / ISK / CLI failures are reached again by the generators for the same VERIF_SEED)."""
+    sets, seen = [], set()
+    for c in data.get("cases", []) + data.get("disagreements", []):
+        inp = c.get("input") or {}
+        ks = inp.get("keys") if isinstance(inp, dict) else None
+        if ks and all(isinstance(k, dict) and ("d" in k or "p" in k) for k in ks):
+            key = json.dumps(ks, sort_keys=True)
+            if key not in seen:
+                seen.add(key)
+                sets.append(ks)
+    run(ck, replay_sets=sets[:20])
